@@ -14,14 +14,14 @@
 EXTENDS IntegrityDefs, Json, IOUtils, TLCExt
 
 Rec == ndJsonDeserialize(IOEnv.TRACE)
-VARIABLES tl, vcfg, vfiles, vmd5
-tvars == <<tl, vcfg, vfiles, vmd5>>
+VARIABLES tl, vcfg, vfiles, vmd5, vsig
+tvars == <<tl, vcfg, vfiles, vmd5, vsig>>
 
 E == Rec[tl]
 Is(k) == Rec[tl].ev = k
 Bad(why)   == PrintT(<<"BAD", tl, why>>)
 Drift(why) == PrintT(<<"DRIFT", tl, why>>)
-Keep == UNCHANGED <<vcfg, vfiles, vmd5>>
+Keep == UNCHANGED <<vcfg, vfiles, vmd5, vsig>>
 AllTrue(s) == \A j \in 1..Len(s) : s[j] = TRUE
 
 \* ---- observations -------------------------------------------------------------------------------
@@ -42,9 +42,10 @@ T_Reset ==
     /\ Is("Reset")
     /\ vcfg' = E.cfg /\ vfiles' = E.files
     /\ vmd5' = <<>>
+    /\ vsig' = IF "slo" \in DOMAIN E THEN <<E.slo, E.shi>> ELSE <<0, 0>>
 
 T_Intact ==
-    /\ Is("Intact") /\ UNCHANGED <<vcfg, vfiles>>
+    /\ Is("Intact") /\ UNCHANGED <<vcfg, vfiles, vsig>>
     /\ vmd5' = E.md5
     /\ IF ReadsOriginal(E) THEN TRUE ELSE Bad("intact: read-back differs from original")
     /\ IF E.fopen /\ ~VerifyFails(E) THEN TRUE ELSE Bad("intact: SFileVerifyFile fails")
@@ -72,12 +73,16 @@ T_SigIntact ==
     /\ Is("SigIntact") /\ Keep
     /\ IF E.res = "valid" THEN TRUE ELSE Bad("fresh weak signature does not verify")
 
+\* the class of the flipped byte is decided here from the logged integers (not from the harness's label)
 T_SigFlip ==
     /\ Is("SigFlip") /\ Keep
-    /\ IF E.place \in {"data", "sig_value"} /\ E.res = "valid"
+    /\ IF /\ (SigMustFail(E.off, vsig[1], vsig[2]) \/ SigMustFail(E.off_last, vsig[1], vsig[2]))
+          /\ E.res = "valid"
          THEN Bad("signature still verifies after a bit flip") ELSE TRUE
+    /\ IF SigClass(E.off, vsig[1], vsig[2]) # SigClass(E.off_last, vsig[1], vsig[2])
+         THEN Drift("folded SigFlip run crosses a class boundary") ELSE TRUE
 
-TInit == tl = 1 /\ vcfg = [ver |-> 0] /\ vfiles = <<>> /\ vmd5 = <<>>
+TInit == tl = 1 /\ vcfg = [ver |-> 0] /\ vfiles = <<>> /\ vmd5 = <<>> /\ vsig = <<0, 0>>
 TNext == /\ tl <= Len(Rec) /\ tl' = tl + 1
          /\ \/ T_Reset \/ T_Intact \/ T_Regions \/ T_BuildFailed \/ T_Corrupt \/ T_SigIntact \/ T_SigFlip
 
